@@ -59,11 +59,11 @@ def _numbagg_wrapper(
     if (
         dtype is not None
         and array.dtype.kind in "iu"
-        and np.dtype(dtype).kind in "iu"
+        and np.dtype(dtype).kind in "iuf"
         and np.dtype(dtype).itemsize > array.dtype.itemsize
     ):
-        # numbagg accumulates in the input dtype: widen narrow integers first
-        # so that sums and products do not wrap before the final cast
+        # numbagg accumulates in the input dtype: widen narrow integers first (to the wider integer,
+        # or to the floating dtype chosen to hold a NaN fill) so that sums and products do not wrap
         array = array.astype(dtype)
 
     func_ = getattr(numbagg.grouped, f"group_{func}")
